@@ -52,7 +52,11 @@ def spec_sequence(parts, L):
 
 
 def comp_text(body):
-    return "declare component T: a -> a\nsequence a = \"4N\"\n" + body + "strand A = a\n"
+    return ("declare component T: a -> a\nsequence a = \"4N\"\nsequence b = \"3S\"\nsequence c = \"0N\"\n"
+            "sequence X = a b*\nsequence Y = b X* c\n" + body + "strand A = a\n")
+
+
+NAMED = {"a": 4, "a*": 4, "b": 3, "b*": 3, "c": 0, "X": 7, "X*": 7, "Y": 10, "Y*": 10, "domains(X)": 7, "domains(Y*)": 10}
 
 
 def compile_text(text):
@@ -129,17 +133,25 @@ def run(st, tier, seed):
         w = rng.randint(0, 5)
         wc = rng.choice(CODES)
         fixed = sum(m for m, _ in pre + post)
-        extra_items_len = 4 if kind != "base" else 0
+        # other items of the statement: named sequences, nested and starred super-sequences, domains(), plain quoted regions
+        before = [] if kind == "base" else [rng.choice(list(NAMED) + ['"2N"']) for _ in range(rng.randint(0, 3))]
+        after = [] if kind == "base" else [rng.choice(list(NAMED) + ['"1K"']) for _ in range(rng.randint(0, 3))]
+        if kind != "base" and not before and not after:
+            before = ["X"]
+        others = sum(NAMED.get(x, 2 if x == '"2N"' else 1) for x in before + after)
+        extra_items_len = others
         L = fixed + w + extra_items_len
         def body(wtext):
             q = " ".join(["%d%s" % (m, c) for m, c in pre] + [wtext + wc] + ["%d%s" % (m, c) for m, c in post])
+            items = " ".join(before + ['"%s"' % q] + after)
             if kind == "base":
-                return 'sequence x = "%s" : %d\nstrand X = x a\n' % (q, L)
+                return 'sequence x = "%s" : %d\nstrand X1 = x a\n' % (q, L)
             if kind == "super":
-                pos = rng.random() < 0.5
-                return ('sequence x = %s : %d\nstrand X = x a\n' % (('a "%s"' if pos else '"%s" a*') % q, L))
-            return 'strand X = a* "%s" : %d\n' % (q, L)
-        state = rng.getstate(); t1 = comp_text(body("?")); rng.setstate(state); t2 = comp_text(body(str(w)))
+                return 'sequence x = %s : %d\nstrand X1 = x a\n' % (items, L)
+            return 'strand X1 = %s : %d\n' % (items, max(L, 0))
+        if kind == "strand" and L == 0:
+            continue
+        t1 = comp_text(body("?")); t2 = comp_text(body(str(w)))
         r1, r2 = compile_text(t1), compile_text(t2)
         res.evaluations += 1
         res.nontriv(t1)
